@@ -6,6 +6,8 @@ Model: Rmk/Impl/Virtual.lean (mixed trees `MNode` with virtual nodes served by a
 -/
 import Rmk.Proofs.VirtualLaws
 import Rmk.Proofs.VirtualViewLaws
+import Rmk.Proofs.VirtualIterLaws
+import Rmk.Proofs.VirtualApplyLaws
 namespace Rmk.C20
 open Rmk Rmk.Virtual Rmk.VirtualLaws
 
@@ -71,5 +73,34 @@ theorem view_reads_wholly_virtual (H : Hash) (src : Src) (t : Ty) (n : Node) (hs
     (∀ i, readElemM H src t (.virt (n.root H)) i = Impl.readElem H t n i) ∧
     viewLenM H src t (.virt (n.root H)) = Impl.viewLen H t n :=
   VirtualViewLaws.virtual_view_reads t hs
+
+/-- THE OTHER READ ROUTES over a mixed tree: the read-only stack iterators (`NodeIter`, `PackedIter`, `BitfieldIter`: a
+    virtual bottom node ASKS THE SOURCE whether it is a leaf), the tree-reading serialiser (`encode_bytes` / `serialize`) and
+    `to_obj()` (`Impl/VirtualIter.lean`) give exactly what they give over the materialised tree — same results, same
+    failures, every type. -/
+theorem view_iterators_serialiser_export (H : Hash) (src : Src) (t : Ty) (m : MNode) (n : Node) (h : Mat H src m n) :
+    (∀ depth len, VirtualLaws.OptRel (Impl.AllRel (Mat H src)) (nodeIterM src m depth len) (Impl.nodeIter n depth len)) ∧
+    (∀ et depth len, packedIterM H src et m depth len = Impl.packedIter H et n depth len) ∧
+    (∀ depth len, bitfieldIterM H src m depth len = Impl.bitfieldIter H n depth len) ∧
+    serTreeM H src t m = Impl.serTree H t n ∧
+    toObjTreeM H src t m = Impl.toObjTree H t n :=
+  ⟨fun d l => VirtualIterLaws.nodeIterM_rel h d l, fun et d l => VirtualIterLaws.packedIterM_mat h et d l,
+    fun d l => VirtualIterLaws.bitfieldIterM_mat h d l, VirtualIterLaws.serTreeM_mat H src t m n h,
+    VirtualIterLaws.toObjTreeM_mat H src t m n h⟩
+
+/-- VIEW MUTATORS over a mixed tree (`Impl/VirtualApply.lean`: `set` / `append` / `pop` / `change` of every view kind,
+    mirrored line by line; a virtual node on the way asks the source and is rebound into an ordinary pair): a mutator
+    fails on the mixed tree exactly when it fails on the materialised one, and the new backings materialise to each other —
+    so every later read, root and mutation agrees again (`view_reads`, `virtual_root`). -/
+theorem view_mutators (H : Hash) (src : Src) (t : Ty) (m : MNode) (n : Node) (h : Mat H src m n) (op : Impl.Op) :
+    VirtualLaws.OptRel (Mat H src) (applyM H src t m op) (Impl.apply H t n op) :=
+  VirtualApplyLaws.applyM_rel h t op
+
+/-- … for EVERY HISTORY of mutations through the view, starting from the wholly virtual node: it fails at the same
+    operation or ends in backings with the same root. -/
+theorem view_history_wholly_virtual (H : Hash) (src : Src) (t : Ty) (n : Node) (hs : Serves H src n) (ops : List Impl.Op) :
+    VirtualLaws.OptRel (Mat H src) (applyAllM H src t (.virt (n.root H)) ops) (applyAll H t n ops) ∧
+    (applyAllM H src t (.virt (n.root H)) ops).map (·.root H) = (applyAll H t n ops).map (·.root H) :=
+  ⟨VirtualApplyLaws.virtual_apply_history hs t ops, VirtualApplyLaws.virtual_apply_history_root hs t ops⟩
 
 end Rmk.C20
